@@ -9,8 +9,9 @@ LEVEL_NOTE = ('decides: rounding direction of the cell discretisation (up) and o
               'every 8-bit accumulation reachable from a Score<u8> implementation saturates; pruning comparisons are over-estimate >= under-estimate. '
               'The inequality D >= scale(s) then follows by monotonicity (DESIGN §4 C08). Known finding: the generic kernel accumulates with `+=`.')
 
-SAT_INTRINSICS = ('_mm256_adds_epu8', '_mm_adds_epu8')
-WRAP_INTRINSICS = ('_mm256_add_epi8', '_mm_add_epi8', '_mm256_adds_epi8', '_mm_adds_epi8', '_mm256_add_epi16', '_mm_add_epi16')
+SAT_INTRINSICS = ('_mm256_adds_epu8', '_mm_adds_epu8', 'vqaddq_u8')
+WRAP_INTRINSICS = ('_mm256_add_epi8', '_mm_add_epi8', '_mm256_adds_epi8', '_mm_adds_epi8', '_mm256_add_epi16', '_mm_add_epi16',
+                   'vaddq_u8', 'vaddq_s8', 'vqaddq_s8', 'vaddq_u16')
 
 
 def r81(db, ctx):
@@ -175,7 +176,7 @@ def r83(db, ctx):
         seen, ext = db.reach([root], stop=lambda g: g.crate != 'lightmotif')
         accs = []
         for g in seen.values():
-            if g.crate != 'lightmotif' or 'neon' in g.path:
+            if g.crate != 'lightmotif':
                 continue
             for a in u8_accumulations(db, g):
                 accs.append((g, a))
